@@ -81,6 +81,10 @@ def second_order_bound(g, x, tol):
     g2 = pderiv(pderiv(g))
     M = pabs_eval(g2, X1)
     rounding = 8 * (len(g) + 3) * EPS * sum((k + 1) * abs(c) * X1 ** k for k, c in enumerate(g)) + TINY
+    # underflow is rounding too: a power x^k below the normal range is computed with an absolute error of up
+    # to about 2^-1022 (flush to zero / subnormal), which the coefficient then multiplies (only matters for
+    # astronomically large coefficients, e.g. 1e300*x^3 near x = 1e-108 evaluates to exactly 0)
+    rounding += sum((k + 1) * abs(c) for k, c in enumerate(g)) * Fraction(1, 2 ** 1022)
     return M / 2 * d * d, rounding
 
 
